@@ -156,6 +156,42 @@ def run(tier, seed, replay):
             lines.append("C17.coarsen " + json.dumps({"dW": [fr(x) for x in fine[:, ch]], "n": n}))
             expect.append(("coarsen", [float(x) for x in coarse[:, ch]], {"n": n, "K": K, "dt": dtf}))
         rep.count("wiener-chunks")
+    # the Wiener object handed to feedback coefficients, driven directly: histories of queries (later, equal and earlier
+    # times, repeated), interleaved with the increments the integrator draws, against Qv.C17.runCalls
+    from qutip.solver.sode._noise import Wiener as _Wiener
+
+    class _TableGen:
+        """stands for the random generator: hands out the rows of a table of dyadic numbers, in order"""
+        def __init__(self, table):
+            self.table, self.k = table, 0
+
+        def normal(self, loc, scale, size):
+            out = np.full(size, 7.0)
+            for r in range(size[0]):
+                out[r, 0, :] = self.table[self.k + r]
+            self.k += size[0]
+            return out
+    for _ in range(30 if tier == "quick" else 300):
+        nproc, ndw = int(rng.integers(1, 3)), int(rng.integers(1, 3))
+        table = rng.integers(-40, 41, (64, nproc)) / 8.0
+        wobj = _Wiener(0.0, 0.25, _TableGen(table), (ndw, nproc))
+        kind = str(rng.choice(["increasing", "any", "repeats"]))
+        ncall = int(rng.integers(1, 13))
+        calls = [int(x) for x in rng.integers(0, 21, ncall)]
+        if kind == "increasing":
+            calls = sorted(calls)
+        elif kind == "repeats":
+            calls = [c for c in calls[: max(1, ncall // 2)] for _ in range(2)]
+        outs = []
+        for c in calls:
+            if rng.random() < 0.4:
+                wobj.dW(0.25 * int(rng.integers(0, 21)), int(rng.integers(1, 4)))      # the integrator drawing increments in between
+            outs.append(np.array(wobj(0.25 * c), dtype=float).copy())
+        rep.count("wiener-object-history:" + kind)
+        rep.case({"wiener_calls": calls}, len(set(calls)) >= 2)
+        for j in range(nproc):
+            lines.append("C17.wiener_calls " + json.dumps({"dW": [fr(x) for x in table[:, j]], "calls": calls}))
+            expect.append(("wiener", [float(o[j]) for o in outs], {"calls": calls, "process": j, "kind": kind}))
     model = core.run_driver(lines)
     ndis, first = 0, None
     for line, ex, m in zip(lines, expect, model):
